@@ -1,7 +1,7 @@
 //! C11: signed digests are exactly those RFC 9580 5.2.4 prescribes.
 use pgp::composed::KeyType;
 use pgp::crypto::hash::HashAlgorithm;
-use pgp::packet::{Notation, PublicKey, PublicSubkey, Signature, SignatureConfig, SignatureType, Subpacket, SubpacketData, UserAttribute, UserId};
+use pgp::packet::{Notation, Packet, PacketParser, PublicKey, PublicSubkey, Signature, SignatureConfig, SignatureType, Subpacket, SubpacketData, UserAttribute, UserId};
 use pgp::ser::Serialize;
 use pgp::types::{KeyDetails, KeyVersion, PacketHeaderVersion, Password, SignatureBytes, Tag, Timestamp};
 use vh::keys::{gen_key, gen_key_with_subkey, RecKey};
@@ -232,6 +232,56 @@ impl Ctx {
         }
     }
 
+
+    /// v3 signatures over keys and user ids / attributes (RFC 9580 5.2.4: the id is hashed bare, without the 0xB4 / 0xD1
+    /// prefix and length of v4; no trailer): verification only, through every entry point that takes such a signature
+    fn v3_key_sigs(&mut self, rk: &RecKey, rk_sub: &RecKey, pubkey: &PublicKey, subkey: &pgp::packet::PublicSubkey, hash: HashAlgorithm) {
+        use digest::Digest;
+        let body = pubkey.to_bytes().unwrap();
+        let sbody = subkey.to_bytes().unwrap();
+        let frame = |b: &[u8]| -> Vec<u8> { let mut o = vec![0x99u8]; o.extend((b.len() as u16).to_be_bytes()); o.extend_from_slice(b); o };
+        let dg = |pre: &[u8]| -> Vec<u8> { match hash { HashAlgorithm::Sha256 => sha2::Sha256::digest(pre).to_vec(), HashAlgorithm::Sha1 => sha1::Sha1::digest(pre).to_vec(), _ => sha2::Sha512::digest(pre).to_vec() } };
+        let pka: u8 = rk.algorithm().into();
+        let idstr: String = (0..*self.rng.pick(&[0usize, 1, 20, 300])).map(|_| *self.rng.pick(&['a', 'b', ' ', '<', '>', '@', '\u{e9}'])).collect();
+        let uid = UserId::from_str(PacketHeaderVersion::New, &idstr).unwrap();
+        let img = self.rng.bytes(40);
+        let ua = UserAttribute::new_image(img.into()).unwrap();
+        let uab = ua.to_bytes().unwrap();
+        // (type, subject octets as the harness states them, subject for the model, signer, verification)
+        type V<'x> = Box<dyn Fn(&Signature) -> bool + 'x>;
+        let mut jobs: Vec<(SignatureType, Vec<u8>, String, &RecKey, V, &str)> = Vec::new();
+        for typ in [SignatureType::CertGeneric, SignatureType::CertPersona, SignatureType::CertCasual, SignatureType::CertPositive, SignatureType::CertRevocation] {
+            let mut subj = frame(&body); subj.extend_from_slice(idstr.as_bytes());
+            jobs.push((typ, subj.clone(), format!("keyid:{}:{}:13:{}", kv(pubkey.version()), hx(&body), hx(idstr.as_bytes())), rk, Box::new(|s: &Signature| s.verify_certification(rk, Tag::UserId, &uid).is_ok()), "v3-cert-uid"));
+            jobs.push((typ, subj, format!("keyid:{}:{}:13:{}", kv(pubkey.version()), hx(&body), hx(idstr.as_bytes())), rk, Box::new(|s: &Signature| s.verify_third_party_certification(pubkey, rk, Tag::UserId, &uid).is_ok()), "v3-cert-uid-third-party-entry"));
+            let mut subj = frame(&body); subj.extend_from_slice(&uab);
+            jobs.push((typ, subj, format!("keyid:{}:{}:17:{}", kv(pubkey.version()), hx(&body), hx(&uab)), rk, Box::new(|s: &Signature| s.verify_certification(rk, Tag::UserAttribute, &ua).is_ok()), "v3-cert-attr"));
+        }
+        for typ in [SignatureType::Key, SignatureType::KeyRevocation] {
+            jobs.push((typ, frame(&body), format!("key:{}:{}", kv(pubkey.version()), hx(&body)), rk, Box::new(|s: &Signature| s.verify_key(rk).is_ok()), "v3-key"));
+        }
+        for typ in [SignatureType::SubkeyBinding, SignatureType::SubkeyRevocation] {
+            let mut subj = frame(&body); subj.extend(frame(&sbody));
+            jobs.push((typ, subj, format!("keys:{}:{}:{}:{}", kv(pubkey.version()), hx(&body), kv(subkey.version()), hx(&sbody)), rk, Box::new(|s: &Signature| s.verify_subkey_binding(rk, subkey).is_ok()), "v3-subkey-binding"));
+        }
+        let _ = rk_sub; // (a v3 back signature would need a signing-capable subkey of a v3 key: not generated)
+        for (typ, subj, msubj, signer, verify, cls) in jobs {
+            let created = 900_000_000u32 + self.rng.below(100_000) as u32;
+            let mut pre = subj.clone(); pre.push(typ.into()); pre.extend(created.to_be_bytes());
+            let d = dg(&pre);
+            let Some(sigb) = signer.sign_raw(&d) else { continue; };
+            let cfg = SignatureConfig::v3(typ, signer.algorithm(), hash, Timestamp::from_secs(created), signer.legacy_key_id());
+            let Ok(sig) = Signature::from_config(cfg, [d[0], d[1]], sigb) else { continue; };
+            // through the wire as well: what is verified is what a reader would get
+            let sig = Packet::from(sig.clone()).to_bytes().ok().and_then(|b| match PacketParser::new(&b[..]).next() { Some(Ok(Packet::Signature(s2))) => Some(s2), _ => None }).unwrap_or(sig);
+            signer.clear();
+            let ok = guarded(|| verify(&sig)).unwrap_or(false);
+            let dv = signer.last();
+            let imp = match &dv { Some(x) => format!("{} {}", hx(x), ok as u8), None => "ERR".into() };
+            self.out.case("preimage3", &[u8::from(typ).to_string(), created.to_string(), pka.to_string(), hash_id(hash).to_string(), msubj], &[], &imp, Some(ok), cls);
+        }
+    }
+
     /// v3 signatures: verification only
     fn v3(&mut self, rk: &RecKey, hash: HashAlgorithm) {
         use digest::Digest;
@@ -300,6 +350,15 @@ fn main() {
     }
     let rk = RecKey::new(k4.primary_key.public_key().clone());
     for h in [HashAlgorithm::Sha256, HashAlgorithm::Sha1, HashAlgorithm::Sha512] { cx.v3(&rk, h); }
+    {
+        let pubkey = k4.primary_key.public_key().clone();
+        let subkey = k4.secret_subkeys[0].key.public_key().clone();
+        let rk_sub = RecKey::new_sub(subkey.clone());
+        for h in [HashAlgorithm::Sha256, HashAlgorithm::Sha1, HashAlgorithm::Sha512] { cx.v3_key_sigs(&rk, &rk_sub, &pubkey, &subkey, h); }
+        let pubkey = krsa.primary_key.public_key().clone();
+        let rkr = RecKey::new(pubkey.clone());
+        cx.v3_key_sigs(&rkr, &rk_sub, &pubkey, &subkey, HashAlgorithm::Sha256);
+    }
     cx.out.finish();
     let _ = SignatureBytes::Native(vec![].into());
 }
